@@ -33,6 +33,8 @@ PROPERTIES
   Act_C17_Append
   Act_C17_Aggregate
   Act_C17_History
+  Act_C17_AppendH
+  Act_C17_HistoryH
   Act_Rejected_NoEffect
   Act_X17_EditApplied
 CHECK_DEADLOCK FALSE
